@@ -39,7 +39,12 @@ func restartCmd() *cobra.Command {
 
 			// Load the DAG file and stop the DAG if it is running.
 			specFilePath := args[0]
-			workflow, err := dag.Load(cfg.BaseConfig, specFilePath, "")
+			// Only the location and the name are needed to find a running
+			// instance. Loading for execution here would export the default
+			// parameters into this process, and the steps of the restarted
+			// run would see them next to the parameters of the run that is
+			// repeated.
+			workflow, err := dag.LoadMetadata(specFilePath)
 			if err != nil {
 				initLogger.Fatal("Workflow load failed", "error", err, "file", args[0])
 			}
@@ -52,9 +57,6 @@ func restartCmd() *cobra.Command {
 					"error", err,
 					"workflow", workflow.Name)
 			}
-
-			// Wait for the specified amount of time before restarting.
-			waitForRestart(workflow.RestartWait, initLogger)
 
 			// Retrieve the parameter of the previous execution.
 			params, err := getPreviousExecutionParams(cli, workflow)
@@ -73,6 +75,9 @@ func restartCmd() *cobra.Command {
 					"file", specFilePath,
 					"params", params)
 			}
+
+			// Wait for the specified amount of time before restarting.
+			waitForRestart(workflow.RestartWait, initLogger)
 
 			requestID, err := generateRequestID()
 			if err != nil {
